@@ -7,5 +7,5 @@ scratch=$(mktemp -d /tmp/try-patch.XXXXXX)
 rsync -a --exclude .git /repo/ $scratch/src/
 mkdir -p $scratch/verif; cp /verif/known_findings.jsonl $scratch/verif/
 (cd $scratch/src && patch -p1 -s --no-backup-if-mismatch -i "$p") || { rm -rf $scratch; exit 3; }
-for x in "$@"; do (cd /verif && ./bin/xcheck -prop $x -repo $scratch/src -verif $scratch/verif 2>&1 | grep -E "^(VIOLATED|UNDECIDED|CHECKER|C[0-9]+ tier)" | sed "s#$scratch/src/##g" | cut -c1-${W:-330}); done
+for x in "$@"; do (cd /verif && ${XCHECK:-/verif/bin/xcheck} -prop $x -repo $scratch/src -verif $scratch/verif 2>&1 | grep -E "^(VIOLATED|UNDECIDED|CHECKER|C[0-9]+ tier)" | sed "s#$scratch/src/##g" | cut -c1-${W:-330}); done
 rm -rf $scratch
